@@ -109,6 +109,7 @@ structure Net where
   aw : Nat
   samNumRules : Nat
   samDeclared : Bool              -- `Sam` declared as `[SamNumRules-1:0]`
+  tableless : Bool := false       -- `use_id_table: false`: one-bit dummy `Sam`, no address map
   sam : List Rule                 -- listing order
   routingTables : Option (List (List Lit))
   routeCfg : List (String × Expr)
@@ -296,7 +297,7 @@ def Net.ofSv (pkg : Package) (top : Module) : Except String Net := do
   let pkgParams := pkg.items.filterMap fun
     | .localparam t n v => some (n, t, v)
     | _ => none
-  return { pkg, top, epEnum, samIdxEnum, idType, routeBits, aw, samNumRules, samDeclared, sam,
+  return { pkg, top, epEnum, samIdxEnum, idType, routeBits, aw, samNumRules, samDeclared, tableless, sam,
            routingTables, routeCfg, decls, assigns, insts, localparams := lps, pkgParams,
            topStructs := structs }
 
